@@ -774,14 +774,49 @@ def print_tag(tok, syntax, rng):
     return '%%(%s%s)[' % (name, (' ' + body) if body else '')
 
 
+# Text that starts like an entity reference but is none by the documented form &dtml[.mod..]-name; : between the
+# opener and the next ';' stands a character that no name or modifier can contain.  It is ordinary literal text, so it
+# must change neither the verdict nor the location of anything (a scanner that "resumes after the next ';'" swallows
+# the tags in between: seed C06-9).
+LOOKALIKES = ('&dtml- ', '&dtml. ', '&dtml-=', '&dtml-a b', '&dtml.a b-c', '&dtml-x=1&y=2', '&dtml-\n', '&dtml.-',
+              '&dtml-a,b', '&dtml.x y', '&dtml-x\t', 'Q&dtml-A ', '?a=1&dtml-size=20&sort=', '&dtml-(x)', '&dtml.a+b-c')
+
+
+def decorate(toks, rng, mutated=None):
+    """-> (tokens with entity look-alike text in front of some tags and a ';' text at the very end, new index of the
+    token that had index `mutated`)."""
+    out = []
+    new_mut = None
+    n_tags = sum(1 for t in toks if t['t'] == 'tag')
+    pick = set(rng.sample(range(n_tags), min(n_tags, rng.choice((1, 1, 2, 3))))) if n_tags else set()
+    if mutated is not None and rng.random() < 0.7:
+        # the look-alike goes in front of the mutated tag more often than not
+        k = sum(1 for t in toks[:mutated] if t['t'] == 'tag')
+        pick.add(k)
+    k = 0
+    for i, t in enumerate(toks):
+        if t['t'] == 'tag':
+            if k in pick:
+                out.append({'t': 'text', 's': rng.choice(LOOKALIKES), 'lookalike': True})
+            k += 1
+        if i == mutated:
+            new_mut = len(out)
+        out.append(t)
+    out.append({'t': 'text', 's': rng.choice((';', ' ;', ';\n', 'a;b')), 'lookalike': True})
+    return out, new_mut
+
+
 def print_tokens(toks, syntax, rng):
     """-> (source, [(offset, text, token index)]) ; None when a text piece would read as a tag."""
     parts = []
     tags = []
     off = 0
+    allowed = []
     for i, tok in enumerate(toks):
         if tok['t'] == 'text':
             s = tok['s']
+            if tok.get('lookalike'):
+                allowed.append((off - 1, off + len(s)))
         else:
             s = print_tag(tok, syntax, rng)
             if s is None:
@@ -799,7 +834,7 @@ def print_tokens(toks, syntax, rng):
     for op in openers:
         p = src.find(op)
         while p >= 0:
-            if p not in starts and not any(a < p < b for a, b in inside):
+            if p not in starts and not any(a < p < b for a, b in inside) and not any(a < p < b for a, b in allowed):
                 return None
             p = src.find(op, p + 1)
     return src, tags
@@ -1112,7 +1147,9 @@ def mutations(toks, rng, per_kind=3):
         if has_expr:
             new = [nk, rng.choice(SIMPLE_NAMES), False]
         else:
-            new = ['expr', gen_expr(rng, 1), True]
+            # the second giver in every form an attribute can take: a value, an empty value, no value at all
+            new = rng.choice((['expr', gen_expr(rng, 1), True], ['expr', gen_expr(rng, 1), True], ['expr', '', True],
+                              ['expr', None, False], ['expr', ' ', True]))
         a.insert(rng.randint(1, len(a)), new)
         yield 'name_and_expr', t, i
     for i in pick([i for i in tabled if toks[i]['attrs']]):
